@@ -160,8 +160,19 @@ impl BackupImport {
                     file.file_name(),
                 );
                 let target = account_paths.into_file_path(file);
-                let blob_buffer =
-                    self.zip_reader.by_name(&entry_name).await?.unwrap();
+                let blob_buffer = self
+                    .zip_reader
+                    .by_name(&entry_name)
+                    .await?
+                    .ok_or_else(|| {
+                        std::io::Error::new(
+                            std::io::ErrorKind::NotFound,
+                            format!(
+                                "archive entry {} not found",
+                                entry_name
+                            ),
+                        )
+                    })?;
 
                 if let Some(parent) = target.parent() {
                     vfs::create_dir_all(parent).await?;
